@@ -35,6 +35,10 @@ def gen_program(rng, well_behaved=True, allow_fail=True, allow_file=True, allow_
                      "sniff": rng.choice([0, 0, 1, 4, 512])}
         total = len(content) - off
         p["chunks"] = []
+        if not bodyless and rng.randrange(4) == 0:
+            # a preamble sent through write() before the file wrapper is returned: it counts against the declared length like any body byte
+            p["pre_write"] = [rng.choice(CHUNK_POOL[:5]) for _ in range(rng.randrange(1, 3))]
+            total += sum(len(c) for c in p["pre_write"])
     cl = rng.randrange(4)
     p["cl"] = None
     if cl == 0:
@@ -59,7 +63,7 @@ def gen_program(rng, well_behaved=True, allow_fail=True, allow_file=True, allow_
 def expected_body(p, method):
     if p["kind"] == "file":
         f = p["file"]
-        out = f["content"].encode("latin-1")[f.get("offset", 0):]
+        out = "".join(p.get("pre_write", [])).encode("latin-1") + f["content"].encode("latin-1")[f.get("offset", 0):]
     else:
         out = "".join(p["chunks"]).encode("latin-1")
     if method == "HEAD":
